@@ -22,6 +22,10 @@
 (*  reduce one-channel one-pole reduction to the Breit-Wigner functions    *)
 (*  obs    quantised float residuals of unitarity / symmetry (observation  *)
 (*         law, kind N: the numbers are the implementation's)              *)
+(*  obsb   the same observation with a pole mass BELOW the threshold of one *)
+(*         of its channels and s above every threshold: the property       *)
+(*         quantifies over all real pole masses, so unitarity is judged    *)
+(*         there too (a dedicated family, one finding signature)           *)
 (*  end    prints the counters                                             *)
 (* Gaussian rationals are logged as [re_num, re_den, im_num, im_den],      *)
 (* rationals as [num, den]; channel indices are 0-based as in the library. *)
@@ -39,7 +43,7 @@ Rec == Log[l]
 Clause(name, ok, info) == IF ok THEN TRUE ELSE PrintT(<<"REJECT", name, Rec.id, info>>)
 NoRun == [cls |-> "", n |-> 0, next |-> -1, to |-> -1]
 StatKeys == {"skel", "unitary", "symmetric", "oob", "below", "linear", "plaw", "param", "pparam",
-             "compose", "flow", "flow_rel", "reduce", "obs", "runs"}
+             "compose", "flow", "flow_rel", "reduce", "obs", "obsb", "runs"}
 Bump(s, keys) == [k \in StatKeys |-> IF k \in keys THEN s[k] + 1 ELSE s[k]]
 
 \* ---- decoding logged values -----------------------------------------------------
@@ -214,6 +218,17 @@ ObsLaws(r) ==
        /\ Clause("unitarity-observed", r.uq <= Tol, <<r.cls, r.n, r.np, r.L, r.X, r.uq>>)
        /\ Clause("symmetry-observed", r.sq <= Tol, <<r.cls, r.n, r.np, r.L, r.X, r.sq>>)
 
+\* pole mass below a channel threshold: mbelow = max over poles R and channels i of
+\* (m_a[i] + m_b[i] - m_R) / m_R in units of 1e-6; s still above every threshold (thr) and
+\* away from every pole (pole)
+ObsBelowApplicable(r) == r.thr >= Margin /\ r.pole >= Margin /\ r.mbelow >= Margin
+ObsBelowLaws(r) ==
+  /\ Clause("obsb-precondition", ObsBelowApplicable(r), <<r.cls, r.n, r.np, r.L, r.X, r.thr, r.pole, r.mbelow>>)
+  /\ ObsBelowApplicable(r) => Clause("finite-observed-pole-below-threshold", r.finite = 1, <<r.cls, r.n, r.np, r.L, r.X>>)
+  /\ (ObsBelowApplicable(r) /\ r.finite = 1) =>
+       /\ Clause("unitarity-observed-pole-below-threshold", r.uq <= Tol, <<r.cls, r.n, r.np, r.L, r.X, r.uq>>)
+       /\ Clause("symmetry-observed-pole-below-threshold", r.sq <= Tol, <<r.cls, r.n, r.np, r.L, r.X, r.sq>>)
+
 \* ---- the trace machine --------------------------------------------------------------------
 Step ==
   /\ l <= Len(Log)
@@ -238,6 +253,7 @@ Step ==
                             /\ stat' = Bump(stat, {"flow"} \cup (IF IsRel(Rec.cls) THEN {"flow_rel"} ELSE {}))
        [] Rec.k = "reduce" -> ReduceLaws(Rec) /\ run' = run /\ stat' = Bump(stat, {"reduce"})
        [] Rec.k = "obs" -> ObsLaws(Rec) /\ run' = run /\ stat' = Bump(stat, {"obs"})
+       [] Rec.k = "obsb" -> ObsBelowLaws(Rec) /\ run' = run /\ stat' = Bump(stat, {"obsb"})
        [] Rec.k = "end" ->
             /\ Clause("run-closed", run.next = -1, <<run.cls, run.n>>)
             /\ \A key \in StatKeys : PrintT(<<"STAT", key, stat[key]>>)
